@@ -396,9 +396,14 @@ func ctxRun(c *core.Ctx, prop string, judge ctxJudge, equal bool, filter func(s,
 		ls := lens
 		// quick tier: the 2^22+5 length for one instantiation of each conversion function
 		mu.Lock()
-		if fn := dyn.ConvName(s, d); c.Quick() && len(lens) > 0 && !seenFn[fn] && s != d {
+		if fn := dyn.ConvName(s, d); len(lens) > 0 && !seenFn[fn] && s != d {
+			// one instantiation of each conversion function also at 2^24+5 samples (beyond what
+			// single-precision arithmetic and 24-bit fields hold exactly), in the quick tier also at 2^22+7
 			seenFn[fn] = true
-			ls = append(append([]int{}, lens...), 1<<22+7)
+			ls = append(append([]int{}, lens...), 1<<24+5)
+			if c.Quick() {
+				ls = append(ls, 1<<22+7)
+			}
 		}
 		mu.Unlock()
 		sub.giant(s, d, ls, nil)
